@@ -160,3 +160,18 @@ Definition ex_b1 : bytes := ex_unsigned ++ [0].
 Definition ex_b2 : bytes := ex_unsigned ++ [1; 2; 170; 187; 1; 204] ++ [99].
 Definition ex_b3 : bytes := [0; 211; 3; 193; 128; 128].
 
+Example c19_nonvacuous :
+  rlp_canon ex_E /\
+  (exists t1 s1 t2 s2,
+     tx_from_raw_bytes ex_H ex_E ex_b1 = (inl t1, s1) /\ tx_from_raw_bytes ex_H ex_E ex_b2 = (inl t2, s2) /\
+     t_type t1 <> TX_EIP155 /\ t_sigs t1 = [] /\ length (t_sigs t2) = 1%nat /\
+     tx_to_array t1 <> tx_to_array t2 /\ t_hash t1 = t_hash t2 /\
+     src_pos s2 = 52 /\ length ex_b2 = 53%nat) /\
+  (exists t3 s3, tx_from_raw_bytes ex_H ex_E ex_b3 = (inl t3, s3) /\ t_type t3 = TX_EIP155 /\
+                 tx_to_array t3 = ex_b3).
+Proof.
+  split; [intros b e X; inversion X; reflexivity|]. split.
+  - eexists _, _, _, _. split; [vm_compute; reflexivity|]. split; [vm_compute; reflexivity|].
+    repeat split; try (vm_compute; reflexivity); vm_compute; discriminate.
+  - eexists _, _. split; [vm_compute; reflexivity|]. split; vm_compute; reflexivity.
+Qed.
